@@ -329,6 +329,8 @@ def check(src, rep):
         rep.violation("R5", f"{mod}.{where.split(':')[0]}", f"wire-type:{where}", text, src.file(mod), line)
     if not wt:
         rep.ok("R5", f"{n_wt} tagged integer declarations", "32-bit registers parsed unsigned big-endian (Blue Book table 2)")
+    from sa.cross import include
+    include(rep, src, "C10", {"R1", "R2", "R3", "R4", "R5"}, "R4", "the meter clock (APDU date-time or the list's own clock element) is the transmitted date-time")
     rep.floor("layout cells", cells, 40)
 
 
